@@ -3,7 +3,7 @@
 \* spec/RecordAccess.tla (properties C03 and C14).  trace.ndjson, one JSON object per line:
 \*   {"e":"new","loose":b,"alias":b, ...}             start of a history (fresh database); loose: key-prefix handling of
 \*                                                    the backend is not judged (fstree); alias: the backend hands out
-\*                                                    its live record objects (hashmap)
+\*                                                    live record objects (hashmap, cached interface)
 \*   {"e":"op","op":{..},"res":{"err","rec","items","flag","cnt","vh","panic"},
 \*    "feeds":[{"items":[..],"closed":b} x NS],"calls":[{"h","ph","k"}..],
 \*    "store":[{"present","n","sec","crown","exp"} x 4]}
